@@ -580,7 +580,16 @@ func c12Run(c *c12Case, restricted, final bool) (res c12Result) {
 				hcalc.ResetCount()
 				m.Write(hp)
 				if l := hcalc.GetCount(); l > h.size {
-					fail("charged_ge_actual", "handle %d (kind %d, name %+.40q, %d tags) was charged %d bytes; a report of the largest value through it now occupies %d", hi, a.Kind, a.Name, len(a.Tags), h.size, l)
+					same := ""
+					for oj := range c.Allocs {
+						if o := &c.Allocs[oj]; oj != hi && o.Name == a.Name && c12StrsEq(c12SortedPairs(tagsOf(o.Tags)), c12SortedPairs(tagsOf(a.Tags))) {
+							same += fmt.Sprintf(" handle %d (kind %d)", oj, o.Kind)
+						}
+					}
+					if same != "" {
+						same = "; same name and tag set as" + same + ", allocated in index order"
+					}
+					fail("charged_ge_actual", "handle %d (kind %d, name %+.40q, %d tags) was charged %d bytes; a report of the largest value through it now occupies %d%s", hi, a.Kind, a.Name, len(a.Tags), h.size, l, same)
 				}
 				continue
 			}
@@ -1140,6 +1149,33 @@ func c12Gen(r *Rng, i int, thorough, restricted bool) c12Case {
 			}
 		}
 		c.Allocs = append(c.Allocs, a)
+	}
+	// one id for several kinds: a counter, a gauge and a timer (sometimes a histogram too) with the
+	// SAME name and the SAME tag set, allocated in a random order ("every mixture of counters,
+	// gauges, timers and histogram buckets, every name and tag set": nothing says that a name and
+	// tag set belongs to one kind only); each kind must be charged for its own encoding
+	if !restricted && r.Chance(35) {
+		name, tags := c12Str(r, c12Len(r, true)), c12TagMap(r, 4, true)
+		if r.Chance(30) {
+			base := c.Allocs[r.Intn(len(c.Allocs))]
+			name, tags = base.Name, base.Tags
+		}
+		kinds := []int{1, 2, 3}
+		if r.Chance(25) {
+			kinds = append(kinds, 4)
+		}
+		for k := len(kinds) - 1; k > 0; k-- {
+			j := r.Intn(k + 1)
+			kinds[k], kinds[j] = kinds[j], kinds[k]
+		}
+		for _, k := range kinds[:2+r.Intn(len(kinds)-1)] {
+			a := c12Alloc{Kind: k, Name: name, Tags: tags}
+			if k == 4 {
+				a.Buckets = []int64{fbits(0), fbits(1), fbits(10)}
+			}
+			c.Allocs = append(c.Allocs, a)
+		}
+		na = len(c.Allocs)
 	}
 	value := func(h int) int64 {
 		switch c.Allocs[h].Kind {
